@@ -12,6 +12,8 @@ pub enum ConsumerEnd {
     ClientCancel,
     ClientCancelTwice,
     Drop,
+    /// the application drops the Consumer together with its receiver (nothing to drain afterwards)
+    DropWhole,
     ServerCancel { nowait: bool },
     /// ends with its channel or the connection
     Inherit,
@@ -163,7 +165,8 @@ pub fn gen_life(cs: &mut ChoiceStream, lc: &LifeCfg) -> Life {
                     ops.push((slot, Op::Cancel { slot: c.cslot }));
                     ops.push((slot, Op::Cancel { slot: c.cslot }));
                 }
-                ConsumerEnd::Drop => ops.push((slot, Op::DropConsumer { slot: c.cslot })),
+                ConsumerEnd::Drop => ops.push((slot, Op::DropConsumer { slot: c.cslot, whole: false })),
+                ConsumerEnd::DropWhole => ops.push((slot, Op::DropConsumer { slot: c.cslot, whole: true })),
                 _ => {}
             }
         }
@@ -183,6 +186,9 @@ pub fn gen_life(cs: &mut ChoiceStream, lc: &LifeCfg) -> Life {
             let c = consumers[*ci].clone();
             let slot = chans.iter().find(|x| x.thread == thread_no && x.id == c.ch).unwrap().slot;
             let acks = if cs.choose("drain_acks", 2) == 1 { vec![gen_ack(cs)] } else { vec![] };
+            if c.end == ConsumerEnd::DropWhole {
+                continue;
+            }
             ops.push((slot, Op::Drain { slot: c.cslot, max: None, acks, via_consumer: false }));
         }
         threads.push(ThreadPlan { chan_ids: ids, ops, close_channels: true });
